@@ -847,7 +847,7 @@ impl XmlAttributeValue {
                 }
                 parser::Reference::Entity(v) => {
                     let entity = context.entity(v)?;
-                    check_entity_ref(&entity, context, &mut HashMap::new())?;
+                    check_entity_ref(&entity, true, context, &mut HashMap::new())?;
                     let entity =
                         XmlUnexpandedEntityReference::node(entity, Some(parent_id), context);
                     Ok(Some(XmlAttributeValue::Entity(entity)))
@@ -2330,6 +2330,7 @@ impl XmlElement {
                         }
                         parser::Reference::Entity(v) => {
                             let entity = context.entity(v)?;
+                            check_entity_ref(&entity, false, context, &mut HashMap::new())?;
                             let entity =
                                 XmlUnexpandedEntityReference::node(entity, element_id, context);
                             element.borrow_mut().push_child(entity);
@@ -4276,19 +4277,25 @@ fn char_from_char16(value: &str) -> error::Result<char> {
 }
 
 /// Checks the replacement text of `entity`, which is referred to directly or indirectly
-/// in an attribute value. `seen` maps the name of an entity to whether its check is
-/// complete; such entities are not checked again.
+/// in an attribute value (`attribute`) or in content. `seen` maps the name of an entity
+/// to whether its check is complete; such entities are not checked again.
 fn check_entity_ref(
     entity: &XmlNode<XmlEntity>,
+    attribute: bool,
     context: &Context,
     seen: &mut HashMap<String, bool>,
 ) -> error::Result<()> {
     let entity = entity.borrow();
     // A predefined entity has no declaration.
-    if entity.parent_id().is_none() || seen.contains_key(entity.name()) {
+    if entity.parent_id().is_none() {
         return Ok(());
     }
-    seen.insert(entity.name().to_string(), false);
+    match seen.get(entity.name()) {
+        Some(true) => return Ok(()),
+        // WFC: No Recursion
+        Some(false) => return Err(error::Error::InvalidData(entity.name().to_string())),
+        None => seen.insert(entity.name().to_string(), false),
+    };
 
     for value in entity.values().unwrap_or_default() {
         // WFC: No < in Attribute Values
@@ -4297,14 +4304,14 @@ fn check_entity_ref(
             XmlEntityValue::Character(v, _) => char_from_char16(v)? == '<',
             XmlEntityValue::Entity(v) => {
                 if let Ok(v) = context.entity(v) {
-                    check_entity_ref(&v, context, seen)?;
+                    check_entity_ref(&v, attribute, context, seen)?;
                 }
                 false
             }
             XmlEntityValue::Parameter(_) => false,
             XmlEntityValue::Text(v) => v.contains('<'),
         };
-        if lt {
+        if attribute && lt {
             return Err(error::Error::InvalidData(entity.name().to_string()));
         }
     }
